@@ -25,20 +25,21 @@ Proof. exact sheets_in_order_ods. Qed.
 
 (* xls: BoundSheet8 records in order (8- or 16-bit names, unused hsState bits), junk records in
    four places, Date1904 present or not *)
-Theorem C16_sheets_in_order_xls : forall c wb, xls_legal c wb = true ->
-  exists p, xls_parse_workbook (xls_stream c wb) = Ok p /\ p_sheets p = wb_sheets wb.
+Theorem C16_sheets_in_order_xls : forall show_f64 c wb, xls_legal c wb = true ->
+  exists p, xls_parse_workbook show_f64 (xls_stream c wb) = Ok p /\ p_sheets p = wb_sheets wb.
 Proof. exact sheets_in_order_xls. Qed.
 
 (* the whole xls report: Lbl records in order, each name resolved through the XTI table to the
    sheet it names, the 3-D reference / area rendered with `$` exactly on the absolute components
-   (parse_defined_names after its repair), date flag *)
-Theorem C16_report_xls : forall c wb, xls_legal c wb = true ->
-  xls_parse_workbook (xls_stream c wb) =
+   (since the repair of C14's K_XLS_NAME_FORMULA the Lbl formula goes through the cell-formula decoder
+   Ptg.xls_parse_formula, with parse_defined_names as the fallback for what it rejects), date flag *)
+Theorem C16_report_xls : forall show_f64 c wb, xls_legal c wb = true ->
+  xls_parse_workbook show_f64 (xls_stream c wb) =
   Ok (mkParsed (wb_sheets wb) [] (spec_names_xls c wb) (wb_1904 wb)).
 Proof. exact xls_parse_encode. Qed.
 
-Theorem C16_defined_names_in_order_xls : forall c wb, xls_legal c wb = true ->
-  exists p, xls_parse_workbook (xls_stream c wb) = Ok p /\ p_names p = spec_names_xls c wb.
+Theorem C16_defined_names_in_order_xls : forall show_f64 c wb, xls_legal c wb = true ->
+  exists p, xls_parse_workbook show_f64 (xls_stream c wb) = Ok p /\ p_names p = spec_names_xls c wb.
 Proof. exact defined_names_in_order_xls. Qed.
 
 (* xlsb: the BrtBundleSh list in order (names, visibility, kind through the relationship lookup),
@@ -118,8 +119,8 @@ Theorem C16_date_flag_reaches_cells_xlsb : forall show_f64 c wb rjunk,
        In (NumFmt.DDateTime b dur g) (xlsb_sheet_values p formats cells) -> g = wb_1904 wb).
 Proof. exact date_flag_reaches_cells_xlsb. Qed.
 
-Theorem C16_date_flag_reaches_cells_xls : forall c wb, xls_legal c wb = true ->
-  exists p, xls_parse_workbook (xls_stream c wb) = Ok p /\
+Theorem C16_date_flag_reaches_cells_xls : forall show_f64 c wb, xls_legal c wb = true ->
+  exists p, xls_parse_workbook show_f64 (xls_stream c wb) = Ok p /\
     (forall t ixfe v fmt,
        NumFmt_proofs.ids_below 65536 t -> NumFmt_proofs.xfs_present t ->
        nth_error (NumFmt.xfs t) (N.to_nat ixfe) = Some fmt ->
